@@ -29,7 +29,10 @@ Pool == {
   Rel(V(2,0,5),  FALSE, FALSE, "good", "match"),
   Rel(V(2,0,12), FALSE, FALSE, "good", "match"),
   Rel(V(2,0,13), FALSE, FALSE, "good", "match"),
-  Rel(V(2,10,0), FALSE, FALSE, "good", "mismatch")
+  Rel(V(2,10,0), FALSE, FALSE, "good", "mismatch"),
+  Rel(V(2,0,0), FALSE, FALSE, "tgz", "match"),
+  Rel(V(2,0,0), FALSE, FALSE, "tgz", "mismatch"),
+  Rel(V(2,0,0), FALSE, FALSE, "tgz", "otherfile")
 }
 \* catalogues: sequences without two releases of the same version
 MCCatalogues == { <<>> } \cup { <<a>> : a \in Pool }
